@@ -133,7 +133,7 @@ static void str_case(long k, fcase *c) {
         int si = (int)(k % 6); k /= 6; int pi = (int)(k % 5); k /= 5; int wi = (int)(k % 3); k /= 3; int fi = (int)(k % 6);
         const char *s = STRS[si]; size_t sl = strlen(s);
         /* "%.Ns" argument: an N-byte object without terminator when the string is at least N long */
-        c->str_prec = SP[pi] >= 0 ? (size_t)SP[pi] : (size_t)-1; c->str_unterm = SP[pi] >= 0 && sl >= (size_t)SP[pi] && SP[pi] > 0;
+        c->str_prec = SP[pi] >= 0 ? (size_t)SP[pi] : (size_t)-1; c->str_unterm = SP[pi] >= 0 && sl >= (size_t)SP[pi];     /* precision 0: a zero-byte object, nothing may be read */
         size_t objb = c->str_unterm ? (size_t)SP[pi] : sl + 1;
         g_strobj = place_end(1, objb); memcpy(g_strobj, s, objb <= sl ? objb : sl); if (!c->str_unterm) g_strobj[sl] = 0;
         c->str_len = c->str_unterm ? (size_t)SP[pi] : sl;
